@@ -41,6 +41,14 @@ def sideeffects(req):
     out = []
     for c in req["cases"]:
         arrs = arrays_for(c["family"], c["sign"])
+        if c.get("extrapolate"):
+            # profiles that end with p = 0 at the last point, extrapolated beyond it (psi_sol given as an unnormalised flux, as that branch requires)
+            r1d, z1d, psi2d, psi1d, fpol1d, pressure = arrs
+            s_ = (psi1d - psi1d[0]) / (psi1d[-1] - psi1d[0])
+            pressure = 1000.0 * (1.0 - s_) ** 2
+            arrs = (r1d, z1d, psi2d, psi1d, fpol1d, pressure)
+            far = float(psi1d[-1] + 0.15 * (psi1d[-1] - psi1d[0]))
+            c = dict(c, options=dict(c["options"], extrapolate_profiles=True, psi_sol=far, psi_sol_inner=far))
         names = ("R1D", "Z1D", "psi2D", "psi1D", "fpol1D", "pressure")
         before = [a.copy() for a in arrs]
         wall = [(1.2, -0.5), (1.8, -0.5), (1.8, 0.5), (1.2, 0.5)] if c.get("wall_clockwise_test") else [(1.2, -0.5), (1.2, 0.5), (1.8, 0.5), (1.8, -0.5)]
@@ -48,7 +56,10 @@ def sideeffects(req):
         res = dict(builds=[])
         for k in range(3):
             try:
-                eq = tokamak.TokamakEquilibrium(*arrs[:5], pressure=arrs[5], wall=wall, settings=dict(c["options"]), nonorthogonal_settings=dict(c["options"]), make_regions=False)
+                st, nst = dict(c["options"]), dict(c["options"])
+                eq = tokamak.TokamakEquilibrium(*arrs[:5], pressure=arrs[5], wall=wall, settings=st, nonorthogonal_settings=nst, make_regions=False)
+                if st != c["options"] or nst != c["options"]:
+                    res["settings_changed"] = sorted(set(st) ^ set(c["options"]) | set(nst) ^ set(c["options"]) | {k for k in c["options"] if st.get(k) != c["options"][k]})
                 res["builds"].append(dict(psi_axis=float(eq.psi_axis), psi_bdry=float(eq.psi_bdry), Bt_axis=float(eq.Bt_axis), psi_at=float(eq.psi(1.6, 0.1)), fpol_at=float(eq.fpol(eq.psi_axis))))
             except Exception as e:
                 res["builds"].append(dict(error=type(e).__name__ + ": " + str(e)[:200]))
@@ -190,8 +201,10 @@ def history(req):
     res = []
     for cfg in req["cfgs"]:
         eq, options, inputs = G.build_tokamak(cfg)
+        given = dict(options)
         mesh = BoutMesh(eq, options)
         mesh.geometry()
+        changed = sorted(set(options) ^ set(given) | {k for k in given if k in options and options[k] != given[k]})
         d = {k: G.mla_dict(mesh.__dict__[k]) for k in ("Rxy", "Zxy", "hy", "g22", "J", "zShift", "Bpxy", "pressure", "curl_bOverB_z") if k in mesh.__dict__}
         # the evaluated option sets (what is embedded in the grid file as hypnotoad_inputs_yaml)
         ev = {}
@@ -199,6 +212,7 @@ def history(req):
             for k, v in dict(o).items():
                 ev[f"{nm}.{k}"] = repr(v)
         d["__options__"] = ev
+        d["__settings_dict_changed__"] = changed
         res.append(d)
     with open(req["out"], "wb") as f:
         pickle.dump(res, f, protocol=4)
